@@ -2012,7 +2012,11 @@ class ImportManager:
     self.module_selectors = {}
     self.names = set()
     # Prefer to order `from` style imports first.
-    for statement in sorted(imports, key=lambda s: (s.module, not s.is_from)):
+    # Ties (the same module imported twice in the same style under different
+    # aliases) are broken by the alias, so the result never depends on the
+    # iteration order of the given set.
+    for statement in sorted(
+        imports, key=lambda s: (s.module, not s.is_from, s.alias or '')):
       self.add_import(statement)
 
   @property
